@@ -176,7 +176,7 @@ def corpus(repo: str) -> list[dict]:
                 m = json.loads(meta.read_text())
                 if m.get("expected_rules"):
                     vs.append({"id": f"S-{d.name}", "kind": "break", "patch": str(d / "patch.diff"),
-                               "rules": m["expected_rules"], "props": m.get("props"),
+                               "rules": m["expected_rules"], "props": m.get("props"), "need": "all",
                                "what": "seeded change: " + m.get("summary", "")[:100]})
     return vs
 
